@@ -92,6 +92,10 @@ def explore(ck):
         if i % 8 == 5 and len(blocks) >= 2 and not verify: c.start = r.randrange(1, len(blocks)); tags.append('start>0')
         c.verify = verify; c.meta['tags'] = sorted(set(tags)); c.meta['cbs'] = ['csv']
         cases.append(c)
+    # totals of four digits with a zero-padded group (1005 outputs, 2007 inputs): the printed totals are compared digit for digit with the rows written
+    tb = [None]
+    tb[0] = Block(b'\x00' * 32, [coinbase_tx(0, [(1, b'\x51')])] + [Tx([(gen.rb(r, 32), j, b'', 0) for j in range(223)], [(j, b'') for j in range(111 if q_ else 116)]) for q_ in [1, 1, 1, 1, 1, 0, 0, 0, 1]])
+    tc = Case('totals1005', 'bitcoin').simple_layout(tb); tc.meta['tags'] = ['totals>=1000']; tc.meta['cbs'] = ['csv']; cases.append(tc)
     def nontrivial(c, m):
         t = [x for x in c.meta['tags'] if x not in ('plain', 'extremes')]
         return (c.coin, tuple(t)) if t else None
